@@ -36,7 +36,7 @@ import (
 var sigma = []string{"a", " ", "'", "\"", "$", "@", "~", "*", ";", "|", "&", "{", "}", "(", ")", "[", "#", "\\", "\n", "\r", "\t", "é", "\x01"}
 
 // ... plus the other punctuation the murex parsers give a meaning to
-var sigmaX = append(append([]string{}, sigma...), "%", "`", "=", "-", ">", "<", "?", ":", "!", "/", "]")
+var sigmaX = append(append([]string{}, sigma...), "%", "`", "=", "-", ">", "<", "?", ":", "!", "/", "]", "\u00a0", "\u3000", "\u2028", "\f")
 
 // argvToCmdLineStr mirrors main.argvToCmdLineStr (/repo/main.go); bound to the binary by the e2e subset.
 func argvToCmdLineStr(argv []string) string {
@@ -49,7 +49,7 @@ func argvToCmdLineStr(argv []string) string {
 func init() {
 	vlib.Register(&vlib.Check{
 		ID: "C10", Engine: "E2",
-		Rule: "argument vectors after the plain command name `vargsrec`: (S1) one argument, every string up to length 3 (quick) / 4 (thorough) over the 23-character alphabet of C08 and up to length 2 / 3 over that alphabet plus % ` = - > < ? : ! / ]; (S2) two arguments of length <= 1 over the 34 characters and the empty string (thorough: also two arguments of length <= 2 and three of length <= 1 over the 23 characters and the empty string); (S3) every vector of 1..5 (quick) / 1..6 (thorough) arguments over {empty, a, space, $x}. Each vector is escaped by the mirror of argvToCmdLineStr and by the real esccli builtin (called directly with the vector as parameters; for S1 up to length 2, S2 with 34 characters and S3 also as a method with the array as JSON on stdin), the result is parsed by expressions.ParseBlock (must be exactly one function with that command), by StatementParametersParser in exec mode and executed with a recording builtin (arguments must equal the vector). (E2E) vectors of one argument of length <= 1 over the 34 characters (thorough: also length 2 over the 23) and two arguments over {empty a space $} (thorough: the 23 characters and the empty string) are passed to the murex binary built from the tree under test as `--execute <argv dumper> arg...`. A failing vector is minimised (greedy deletion of arguments and characters while the same clause fails) and reported under the minimal vector. non-trivial = the escaped command line differs from the arguments joined by spaces (something had to be escaped) or an argument is empty",
+		Rule: "argument vectors after the plain command name `vargsrec`: (S1) one argument, every string up to length 3 (quick) / 4 (thorough) over the 23-character alphabet of C08 and up to length 2 / 3 over that alphabet plus % ` = - > < ? : ! / ] and the non-ASCII / rare white space U+00A0 U+3000 U+2028 FF; (S2) two arguments of length <= 1 over the 34 characters and the empty string (thorough: also two arguments of length <= 2 and three of length <= 1 over the 23 characters and the empty string); (S3) every vector of 1..5 (quick) / 1..6 (thorough) arguments over {empty, a, space, $x}. Each vector is escaped by the mirror of argvToCmdLineStr and by the real esccli builtin (called directly with the vector as parameters; for S1 up to length 2, S2 with 34 characters and S3 also as a method with the array as JSON on stdin), the result is parsed by expressions.ParseBlock (must be exactly one function with that command), by StatementParametersParser in exec mode and executed with a recording builtin (arguments must equal the vector). (E2E) vectors of one argument of length <= 1 over the 34 characters (thorough: also length 2 over the 23) and two arguments over {empty a space $} (thorough: the 23 characters and the empty string) are passed to the murex binary built from the tree under test as `--execute <argv dumper> arg...`. A failing vector is minimised (greedy deletion of arguments and characters while the same clause fails) and reported under the minimal vector. non-trivial = the escaped command line differs from the arguments joined by spaces (something had to be escaped) or an argument is empty",
 		Run:    run,
 		Replay: replay,
 		Post:   post,
